@@ -11,7 +11,9 @@ package sym
 import (
 	"encoding/json"
 	"fmt"
+	"runtime"
 	"strings"
+	"time"
 )
 
 // Case is one replay case: an assignment of the symbolic variables.
@@ -51,6 +53,7 @@ func Begin(c *Case) {
 	seq = map[string]int{}
 	res = &Result{}
 	frozen = nil
+	baseGoroutines = runtime.NumGoroutine()
 }
 
 // End finishes the replay and returns what was observed.
@@ -255,3 +258,23 @@ func snapshot(x interface{}) string {
 	}
 	return string(b)
 }
+
+// Quiesce lets every other goroutine run until all of them are blocked or have
+// finished (natively: a short sleep).
+func Quiesce() {
+	for i := 0; i < 20; i++ {
+		runtime.Gosched()
+		time.Sleep(2 * time.Millisecond)
+	}
+}
+
+// Alive returns the number of goroutines started since Begin that have not finished.
+func Alive() int {
+	n := runtime.NumGoroutine() - baseGoroutines
+	if n < 0 {
+		n = 0
+	}
+	return n
+}
+
+var baseGoroutines int
